@@ -9,7 +9,8 @@
  *                  them that needs all 64 result bits (odd multipliers 3,5,7,9 per position);
  *   k<j>_<r>_<ps>  for every signature the runtime claims to support and every boundary constant j of
  *                  the return type: records its arguments, returns the constant;
- *   e_f_d          float(double), e_ptr: int(int*)  - reproducers of known findings;
+ *   e_f_<ps>       float-returning functions and e_<r>_<ps with I/D> functions taking int* / double*
+ *                  parameters: signatures the runtime cannot marshal (must be reported, never entered);
  *   probe          double(double): records the bits of a double held by the Cb program, returns it.
  *
  * Every call writes exactly one line to the C stdout stream:   ECHO <tag> <name> <t:hex,...|->
@@ -64,9 +65,5 @@ static void c20_end(c20_rec *r) {
 }
 
 double probe(double a) { c20_rec r; c20_begin(&r, "probe"); c20_d(&r, a); c20_end(&r); return a; }
-
-/* reproducers of known findings */
-float e_f_d(double a) { c20_rec r; c20_begin(&r, "e_f_d"); c20_d(&r, a); c20_end(&r); return 1.5f; }
-int e_ptr(int *p) { c20_rec r; c20_begin(&r, "e_ptr"); c20_l(&r, (long)(intptr_t)p); c20_end(&r); return 7; }
 
 /* ---- generated functions follow ---- */
